@@ -192,11 +192,13 @@ class ClassInfo:
 
 class Module:
 
-    def __init__(self, name: str, relpath: str, source: str):
+    def __init__(self, name: str, relpath: str, source: str,
+                 tree: ast.Module | None = None):
         self.name = name
         self.relpath = relpath
         self.source = source
-        self.tree = ast.parse(source, filename=relpath)
+        self.tree = tree if tree is not None else ast.parse(source,
+                                                            filename=relpath)
         link_parents(self.tree)
         self.imports: dict[str, str] = {}
         self.functions: dict[str, FunctionInfo] = {}
@@ -314,9 +316,11 @@ class Repo:
     """All Python modules of the package (with optional in-memory overlay)."""
 
     def __init__(self, root: Path | None = None,
-                 overlay: dict[str, str] | None = None):
+                 overlay: dict[str, str] | None = None,
+                 trees: dict[str, ast.Module] | None = None):
         self.root = Path(root) if root else repo_root()
         self.overlay = dict(overlay or {})
+        self.trees = trees or {}
         self.modules: dict[str, Module] = {}
         self.parse_errors: list[str] = []
         base = self.root / SRC
@@ -333,7 +337,8 @@ class Repo:
             if text is None:
                 text = f.read_text(encoding="utf-8")
             try:
-                self.modules[name] = Module(name, rel, text)
+                self.modules[name] = Module(name, rel, text,
+                                            tree=self.trees.get(name))
             except SyntaxError as e:
                 raise AnalysisError(f"cannot parse {rel}: {e}") from e
         self._resolve_bases()
